@@ -495,21 +495,31 @@ impl DepthFirstSearch {
             (" matches ", Operator::Matches),
         ];
 
+        // The goal's operator is the one that occurs first in the pattern (an operator character
+        // inside the literal, as in `X.s == "a>=b"`, is part of the value); among operators starting
+        // at the same position the list order above decides
+        let mut first: Option<(usize, &str, Operator)> = None;
         for (op_str, operator) in operators {
             if let Some(pos) = pattern.find(op_str) {
-                let field = pattern[..pos].trim().to_string();
-                let value_str = pattern[pos + op_str.len()..].trim();
-
-                // Parse value
-                let value = self.parse_value_string(value_str);
-
-                return Some(Condition {
-                    field: field.clone(),
-                    expression: ConditionExpression::Field(field),
-                    operator,
-                    value,
-                });
+                if first.as_ref().map_or(true, |(best, _, _)| pos < *best) {
+                    first = Some((pos, op_str, operator));
+                }
             }
+        }
+
+        if let Some((pos, op_str, operator)) = first {
+            let field = pattern[..pos].trim().to_string();
+            let value_str = pattern[pos + op_str.len()..].trim();
+
+            // Parse value
+            let value = self.parse_value_string(value_str);
+
+            return Some(Condition {
+                field: field.clone(),
+                expression: ConditionExpression::Field(field),
+                operator,
+                value,
+            });
         }
 
         None
@@ -1110,21 +1120,31 @@ impl BreadthFirstSearch {
             (" matches ", Operator::Matches),
         ];
 
+        // The goal's operator is the one that occurs first in the pattern (an operator character
+        // inside the literal, as in `X.s == "a>=b"`, is part of the value); among operators starting
+        // at the same position the list order above decides
+        let mut first: Option<(usize, &str, Operator)> = None;
         for (op_str, operator) in operators {
             if let Some(pos) = pattern.find(op_str) {
-                let field = pattern[..pos].trim().to_string();
-                let value_str = pattern[pos + op_str.len()..].trim();
-
-                // Parse value
-                let value = self.parse_value_string(value_str);
-
-                return Some(Condition {
-                    field: field.clone(),
-                    expression: ConditionExpression::Field(field),
-                    operator,
-                    value,
-                });
+                if first.as_ref().map_or(true, |(best, _, _)| pos < *best) {
+                    first = Some((pos, op_str, operator));
+                }
             }
+        }
+
+        if let Some((pos, op_str, operator)) = first {
+            let field = pattern[..pos].trim().to_string();
+            let value_str = pattern[pos + op_str.len()..].trim();
+
+            // Parse value
+            let value = self.parse_value_string(value_str);
+
+            return Some(Condition {
+                field: field.clone(),
+                expression: ConditionExpression::Field(field),
+                operator,
+                value,
+            });
         }
 
         None
